@@ -529,7 +529,7 @@ async def fake_launch(command, *, shell, env, cwd, mp_ctx, run):
     job = run.job_i
     cmd = run.step.command_and_workdir[0]
     resources = []
-    ses.emit("cmd_start", job=job, step=label, clock=_logical_ns())
+    ses.emit("cmd_start", job=job, step=label, clock=_logical_ns(), cwd=str(cwd), env_root=env.get("ROOT", ""), env_here=env.get("HERE", ""))
     # what a real command gets on its command line: the declaration as of its launch
     ses.launch_info[job] = await _declaration(h, run.step)
     reads: list[str] = []
